@@ -1,46 +1,113 @@
-import FluteModel.Lemmas.SchedConst
+import FluteModel.Lemmas.SchedOut
 /-
   C11 - Announce before send.  Theorems about `Sched` (the model of the whole `Sender`), for EVERY
   configuration `cfg` (both publish modes, any queues / multiplex), EVERY table `tbl` of FDT packet counts and
   EVERY operation history `ops` (add / publish / remove / trigger / read / set_complete, any times -
   monotonicity of time is not even needed).  The statements are about the trace (`State.log`, newest first)
-  judged by the independent monitor `Spec.Announce`.
+  judged by the independent monitor `Spec.Announce`; `read_returns_newest_entry` / `ops_only_append` tie the
+  trace to the values `read` RETURNS (what the driver prints and the correspondence compares).
+
+  Admission hypothesis `Admitted cfg`: in `ObjectsBeingTransferred` mode the automatic publication at transfer
+  start must not be refused (FDT larger than the default OTI's `max_transfer_length`): the real code swallows
+  that error and sends the object unannounced - finding sched-3, negation witness
+  `announce_fails_when_publish_refused`.  In FullFDT mode no hypothesis is needed (a refused `publish` returns
+  `Err` and publishes nothing, so nothing new is sent).
 -/
 namespace Flute.Props.C11
 open Flute.Sched Flute.Spec.Announce
 
+/-- the FDT fits the default OTI, or the mode is FullFDT -/
+def Admitted (cfg : Cfg) : Prop := cfg.mode = .being → cfg.fdtFits = true
+
 /-- every object packet is preceded by the complete emission (all packets 0..n-1, in order, n from the
     instance's transfer length) of an FDT instance that lists the object -/
-theorem announce_before_send (cfg : Cfg) (tbl : List Nat) (ops : List Op) :
+theorem announce_before_send (cfg : Cfg) (tbl : List Nat) (ops : List Op) (ha : Admitted cfg) :
     Holds (npkOf tbl) Announced (trace cfg tbl ops) :=
-  holds_mono (fun _ _ h => h.1) _ (trace_holds cfg tbl ops)
+  holds_mono (fun _ _ h => h.1) _ (trace_holds cfg tbl ops ha)
 
 /-- when an object packet is emitted no published instance is still pending (not yet emitted completely)
     and no FDT transfer is in progress: a pending FDT is always sent in full first -/
-theorem pending_fdt_first (cfg : Cfg) (tbl : List Nat) (ops : List Op) :
+theorem pending_fdt_first (cfg : Cfg) (tbl : List Nat) (ops : List Op) (ha : Admitted cfg) :
     Holds (npkOf tbl) (fun m _ => NoPending m) (trace cfg tbl ops) :=
-  holds_mono (fun _ _ h => h.2) _ (trace_holds cfg tbl ops)
+  holds_mono (fun _ _ h => h.2) _ (trace_holds cfg tbl ops ha)
 
-/-- an object that was added but is not listed by any publication so far is never transmitted
-    (in particular in FullFDT mode, where only `publish` lists objects) -/
-theorem unpublished_never_sent (cfg : Cfg) (tbl : List Nat) (ops : List Op) :
-    Holds (npkOf tbl) Published (trace cfg tbl ops) :=
-  holds_mono (fun _ _ h => let ⟨k, files, h1, h2, _⟩ := h.1; ⟨k, files, h1, h2⟩) _ (trace_holds cfg tbl ops)
+/-- FullFDT: an object's `published` flag is set only together with a publication that lists it, and only
+    published objects are eligible - so an object that was added but not published is never transmitted
+    (state form; the trace form is `announce_before_send`, whose `Announced` contains "listed by a publication") -/
+theorem unpublished_never_sent (cfg : Cfg) (tbl : List Nat) (ops : List Op) (hm : cfg.mode = .full) :
+    (∀ g ∈ (run (init cfg tbl) ops).objs, g.published = true →
+      ∃ k f, getF (run (init cfg tbl) ops).fdts k = some f ∧ g.key ∈ f.content) ∧
+    (∀ g prio now, g.published = false → shouldTransferNow g prio (run (init cfg tbl) ops).cfg.mode now = false) := by
+  have ha : Admitted cfg := fun h => by rw [hm] at h; cases h
+  have h := (ann_run cfg tbl ops ha).2.pubListed
+  have hc := (const_run cfg tbl ops).2
+  rw [hc] at h
+  refine ⟨h hm, ?_⟩
+  intro g prio now hg
+  rw [hc, hm]
+  unfold shouldTransferNow
+  split
+  · rfl
+  · simp [hg]
 
-/-- FullFDT: `publish` is the only source of listings - an object's `published` flag is set only
-    together with a publication that lists it (state form of the third clause) -/
-theorem full_published_listed (cfg : Cfg) (tbl : List Nat) (ops : List Op) (hm : cfg.mode = .full) :
-    ∀ g ∈ (run (init cfg tbl) ops).objs, g.published = true →
-      ∃ k f, getF (run (init cfg tbl) ops).fdts k = some f ∧ g.key ∈ f.content := by
-  have h := (ann_run cfg tbl ops).2.pubListed
-  rw [(const_run cfg tbl ops).2] at h
-  exact h hm
+/-- Refused publication (finding sched-3): `ObjectsBeingTransferred` mode, no FDT fits the default OTI.
+    The object's packets are in the trace although NO publication ever took place. -/
+def cfgRefused : Cfg :=
+  { mode := .being, fdtCarousel := .delay 1000, fdtDuration := 3600000000000, fdtStartId := 1, queues := [(0, 1)],
+    fdtFits := false }
+def obj (n : Nat) : AddArgs := { prio := 0, nSym := n, maxCount := 1, carousel := none, start := none, target := none, allowStop := false }
+
+theorem announce_fails_when_publish_refused :
+    Ev.pkt 5 0 1 0 false ∈ trace cfgRefused [] [.add (obj 2), .read 5 []] ∧
+    (Mon.run (npkOf []) (trace cfgRefused [] [.add (obj 2), .read 5 []])).pubs = [] ∧
+    ¬ Holds (npkOf []) Announced (trace cfgRefused [] [.add (obj 2), .read 5 []]) := by
+  refine ⟨by decide, by decide, ?_⟩
+  intro h
+  have e : trace cfgRefused [] [.add (obj 2), .read 5 []] =
+      Ev.pkt 5 0 1 0 false :: (trace cfgRefused [] [.add (obj 2), .read 5 []]).tail := by decide
+  rw [e] at h
+  obtain ⟨k, files, h1, _⟩ := h.2
+  have : (Mon.run (npkOf []) (trace cfgRefused [] [.add (obj 2), .read 5 []]).tail).pubs = [] := by decide
+  rw [this] at h1
+  cases h1
+
+/-! ### the trace is what `read` returns -/
+
+/-- the value returned by `read` is the newest entry of the trace (`idle` for `None`); everything else the call
+    appended is not a packet entry; nothing already in the trace is changed; `hang` is never returned -/
+theorem read_returns_newest_entry (s : State) (now : Nat) (ticks : List (Nat × Nat)) :
+    ReadRes s (read s now ticks).1 now (read s now ticks).2 :=
+  read_out_log s now ticks
+
+/-- every operation only appends to the trace, and only a `read` that returns a packet appends a packet entry
+    (exactly one) -/
+theorem ops_only_append (s : State) (op : Op) :
+    ∃ new, (step s op).log = new ++ s.log ∧
+      (match op with
+       | .read now ticks => cntPk new = (match (read s now ticks).2 with | .pkt .. => 1 | .fdt .. => 1 | _ => 0)
+       | _ => cntPk new = 0) :=
+  step_log_append s op
+
+/-- the clauses on the RETURNED values: if `read` (after any history) returns an object packet, a complete FDT
+    instance listing the object has been returned before and no publication is pending -/
+theorem read_pkt_is_announced (cfg : Cfg) (tbl : List Nat) (ops : List Op) (ha : Admitted cfg) (now : Nat)
+    (ticks : List (Nat × Nat)) (p t i : Nat) (b : Bool)
+    (hr : (read (run (init cfg tbl) ops) now ticks).2 = Out.pkt p t i b) :
+    ∃ past, (read (run (init cfg tbl) ops) now ticks).1.log = Ev.pkt now p t i b :: past ∧
+      Announced (Mon.run (npkOf tbl) past) t ∧ NoPending (Mon.run (npkOf tbl) past) := by
+  have h1 := read_out_log (run (init cfg tbl) ops) now ticks
+  rw [hr] at h1
+  obtain ⟨new, e, _⟩ := h1
+  have h2 := trace_holds cfg tbl (ops ++ [.read now ticks]) ha
+  have e2 : trace cfg tbl (ops ++ [.read now ticks]) = (read (run (init cfg tbl) ops) now ticks).1.log := by
+    unfold trace run; rw [List.foldl_append]; rfl
+  rw [e2, e] at h2
+  exact ⟨_, e, h2.2.1, h2.2.2⟩
 
 /-! non-vacuity: histories in which object packets are emitted (both modes; an object added mid-flight) -/
 
 def cfgF : Cfg := { mode := .full, fdtCarousel := .delay 1000, fdtDuration := 3600000000000, fdtStartId := 1, queues := [(0, 2)] }
 def cfgB : Cfg := { cfgF with mode := .being }
-def obj (n : Nat) : AddArgs := { prio := 0, nSym := n, maxCount := 1, carousel := none, start := none, target := none, allowStop := false }
 def hist : List Op :=
   [.add (obj 2), .publish 5, .read 5 [], .read 5 [], .read 5 [], .add (obj 1), .read 5 [], .publish 6, .read 6 [], .read 6 [],
    .read 6 [], .read 6 []]
@@ -48,5 +115,6 @@ def hist : List Op :=
 example : Ev.pkt 5 0 1 0 false ∈ trace cfgF [2, 1] hist := by decide
 example : Ev.pkt 6 0 2 0 true ∈ trace cfgF [2, 1] hist := by decide
 example : Ev.pkt 5 0 1 0 false ∈ trace cfgB [1, 1, 1, 1] hist := by decide
+example : Admitted cfgF ∧ Admitted cfgB := ⟨fun h => (by cases h), fun _ => rfl⟩
 
 end Flute.Props.C11
